@@ -407,6 +407,10 @@ impl event::Subscriber for Sub {
         let tp = &event.transport_parameters;
         let mut s = self.sh.lock().unwrap();
         s.ep[self.ep].tp_rx = 1;
+        if s.xmode == 2 {
+            // the active_connection_id_limit this endpoint received from its peer
+            s.xrow([6, self.ep as i128, tp.active_connection_id_limit as i128, 0, 0, 0, 0, now_us() as i128]);
+        }
         let ep = self.ep as i128;
         for (k, v) in [
             (K_TP_MAX_DATA, self.peer_conn_window),
@@ -2226,6 +2230,7 @@ fn e2e_pn(input: &[V]) -> Vec<V> {
 //   2 NEW_CONNECTION_ID received          the datagram that carries it, -1 unknown)
 //   3 RETIRE_CONNECTION_ID received     4 datagram dropped: unknown destination id (id hash)
 //   5 this endpoint's handshake connection id = sequence number 0 (id hash)
+//   6 transport parameters received: seq field = the peer's active_connection_id_limit
 
 fn e2e_cid(input: &[V]) -> Vec<V> {
     let mut c = Cur::new(input);
